@@ -909,6 +909,39 @@ class BasisManaged(Managed):
     def unprotect_basis(self):
         self.is_basis_protected = False
         
+    def _register_copy(self, new):
+        """Registers a copy of this object with the basis it is in
+        
+        A copy made inside an `eigenbasis_of` context is in the basis of 
+        that context; it has to be transformed back with the other objects 
+        when the context is left. 
+        """
+        cb = new.get_current_basis()
+        if cb in self.manager.basis_registered:
+            self.manager.register_with_basis(cb, new)
+        
+    def __copy__(self):
+        cls = self.__class__
+        new = cls.__new__(cls)
+        new.__dict__.update(self.__dict__)
+        # the copy is transformed between bases independently of the 
+        # original, so it cannot share the managed arrays with it
+        for key, val in self.__dict__.items():
+            if isinstance(val, numpy.ndarray):
+                new.__dict__[key] = val.copy()
+        self._register_copy(new)
+        return new
+    
+    def __deepcopy__(self, memo):
+        import copy
+        cls = self.__class__
+        new = cls.__new__(cls)
+        memo[id(self)] = new
+        for key, val in self.__dict__.items():
+            new.__dict__[key] = copy.deepcopy(val, memo)
+        self._register_copy(new)
+        return new
+        
         
 
 
